@@ -3,7 +3,7 @@ import io
 import socket
 import sys
 
-from vf.runner import use_repo, ToolError
+from vf.runner import use_repo, ToolError, Ctx
 from vf.refproto import codec as ref
 from vf import explore, interleave
 
@@ -28,7 +28,32 @@ RULE = ('Decoding: every byte string of length <= 2 (quick) / <= 3 (thorough) '
         'makefile("rb", 0), each recv delivering exactly one segment.  '
         'Encoding: every n < 2^16 '
         '(quick) / 2^21 (thorough), every 2^k-1, 2^k, 2^k+1 for k <= 77, a '
-        'seed-derived set, and negatives under a step horizon.  A case is '
+        'seed-derived set, and negatives under a step horizon.  Entry '
+        'points: every decode and encode case above runs through T.read / '
+        'T.send AND through T.read_with_context / T.send_with_context looked '
+        'up on the class and on an instance T() (the way packet fields and '
+        'array elements reach the codec); all byte strings of length <= 1, '
+        'all shapes and truncations, every n < 2^12 and all structured '
+        'encode values also as the one element of PrefixedArray(VarInt, '
+        'T).*_with_context; every entry point is judged against the '
+        'reference and must agree with the plain one (value or raise, '
+        'cursor).  Histories: for every ordered pair (first, next) of 11 '
+        'operands (VarInt 0, 1, 127, 128, 300, 2^21, 2^32-1; VarLong 0, 300, '
+        '2^35, 2^64-1): first is sent into a sink whose send() raises '
+        'BrokenPipeError / InterruptedError / KeyError at its call k = 1, 2 '
+        '(thorough: 3; the earlier calls succeed), then next into a fresh '
+        'sink / into the same sink; first is read from a stream whose '
+        'read() raises ConnectionResetError / InterruptedError / KeyError or '
+        'hits the end of the stream at call k, then next is read from a '
+        'fresh stream; first is sent into a length-prefixing wrapper whose '
+        'send() itself encodes the chunk length as VarInt / VarLong into the '
+        'sink below it (nested 1 and 2 deep; every level must have received '
+        '<length><chunk> of what the level above received); after each of '
+        'these next is encoded through all four entry points, first again, '
+        'and next decoded: all canonical.  Histories run 13 after the other '
+        '(thorough: each alone) in a fresh fork of a process that has '
+        'executed no codec; a reported case names the histories that ran '
+        'before it in its process.  A case is '
         'non-trivial unless it is the empty string; all cases are distinct '
         'by construction (enumerated without repetition), counted per '
         'generator.  Concurrency: every pair of 11 operations (VarInt.send, '
@@ -46,7 +71,9 @@ ASSUMPTIONS = ['non-termination is judged by a horizon of 20000 traced line '
                'events per call (a correct encoder needs < 100)',
                'the logical position of a stream after decoding is what a '
                'read-to-end on the same stream object still returns (a '
-               'buffered reader may have fetched more from its raw stream)']
+               'buffered reader may have fetched more from its raw stream)',
+               'after a failed send only later calls are judged (what '
+               'reached the failing sink is not)']
 
 HORIZON = 20000
 
@@ -86,10 +113,82 @@ class CountingStream(object):
         return self.b.read(n)
 
 
+_TYPES = {}
+
+
 def types():
-    use_repo()
-    from minecraft.networking.types import VarInt, VarLong
-    return {'VarInt': VarInt, 'VarLong': VarLong}
+    if not _TYPES:
+        use_repo()
+        from minecraft.networking.types import VarInt, VarLong
+        _TYPES.update(VarInt=VarInt, VarLong=VarLong)
+    return _TYPES
+
+
+# Entry points.  Packet code never calls read/send directly: fields go
+# through T.read_with_context / T.send_with_context, looked up on the class or
+# on an instance, and array elements through PrefixedArray.*_with_context.
+# Every case is run through all of them; each is judged against the reference
+# and they must agree with each other.
+VIAS = ('plain', 'class-ctx', 'instance-ctx')
+ARRAY = 'array-ctx'
+_CC = {}
+
+
+def conn_context():
+    if 'c' not in _CC:
+        use_repo()
+        from minecraft.networking.connection import ConnectionContext
+        _CC['c'] = ConnectionContext(protocol_version=578)
+    return _CC['c']
+
+
+def array_of(tname):
+    """PrefixedArray(VarInt, T) - built per call, it is cheap and must not
+    carry anything from one case to the next"""
+    from minecraft.networking.types import PrefixedArray
+    T = types()
+    return PrefixedArray(T['VarInt'], T[tname])
+
+
+def read_via(via, tname, s):
+    T = types()[tname]
+    if via == 'plain':
+        return T.read(s)
+    if via == 'class-ctx':
+        return T.read_with_context(s, conn_context())
+    if via == 'instance-ctx':
+        return T().read_with_context(s, conn_context())
+    if via == ARRAY:
+        got = array_of(tname).read_with_context(s, conn_context())
+        if not isinstance(got, list) or len(got) != 1:
+            raise ArrayShape(got)
+        return got[0]
+    raise ToolError('unknown entry point %r' % (via,))
+
+
+def send_via(via, tname, n, sink):
+    T = types()[tname]
+    if via == 'plain':
+        return T.send(n, sink)
+    if via == 'class-ctx':
+        return T.send_with_context(n, sink, conn_context())
+    if via == 'instance-ctx':
+        return T().send_with_context(n, sink, conn_context())
+    if via == ARRAY:
+        return array_of(tname).send_with_context([n], sink, conn_context())
+    raise ToolError('unknown entry point %r' % (via,))
+
+
+def via_text(tname, via, what):
+    return {'plain': '%s.%s' % (tname, what),
+            'class-ctx': '%s.%s_with_context' % (tname, what),
+            'instance-ctx': '%s().%s_with_context' % (tname, what),
+            ARRAY: 'PrefixedArray(VarInt, %s).%s_with_context [one element]'
+                   % (tname, what)}[via]
+
+
+class ArrayShape(Exception):
+    """an array of one element did not come back as a list of one"""
 
 
 def expect(data, max_bytes):
@@ -193,25 +292,26 @@ def split(data, lens):
     return out
 
 
-def check_decode(ctx, tname, data, counting=False, stream=None, lens=None):
-    """stream: None (BytesIO / the counting stream) or one of STREAM_KINDS
-    with lens = the segment lengths the bytes are handed out in."""
-    T = types()[tname]
-    exp = expect(data, T.max_bytes)
+def decode_once(tname, data, counting, stream, lens, via):
+    """-> (('value', v) | ('raise', name) | ('horizon',), bytes consumed)"""
     close = None
+    lead = b'\x01' if via == ARRAY else b''
     if stream is None:
-        s = CountingStream(data) if counting else io.BytesIO(data)
+        s = CountingStream(lead + data) if counting else \
+            io.BytesIO(lead + data)
+    elif lead:
+        raise ToolError('the array entry point is not used on stream kinds')
     else:
         s, raw, close = open_stream(stream, split(data, lens))
     try:
         try:
-            got = ('value', T.read(s))
+            got = ('value', read_via(via, tname, s))
         except Horizon:
             got = ('horizon',)
         except Exception as e:
             got = ('raise', type(e).__name__)
         if stream is None:
-            pos = (s.b if counting else s).tell()
+            pos = max(0, (s.b if counting else s).tell() - len(lead))
         else:
             raw.calls = -(1 << 30)
             rest = b''
@@ -228,36 +328,69 @@ def check_decode(ctx, tname, data, counting=False, stream=None, lens=None):
     finally:
         if close is not None:
             close()
+    return got, pos
+
+
+def check_decode(ctx, tname, data, counting=False, stream=None, lens=None,
+                 array=False):
+    """stream: None (BytesIO / the counting stream) or one of STREAM_KINDS
+    with lens = the segment lengths the bytes are handed out in.  Every entry
+    point of VIAS (array: also as the one element of an array)."""
+    T = types()[tname]
+    exp = expect(data, T.max_bytes)
     case = {'op': 'decode', 'type': tname, 'data': data}
     key = 'decode %s %s' % (tname, data[:14].hex())
-    via = ''
+    at = ''
     if stream is not None:
         case.update(stream=stream, lens=list(lens))
         key += ' from %s stream' % stream
-        via = ' [%s stream handing out %s]' % (
+        at = ' [%s stream handing out %s]' % (
             stream, ' | '.join(x.hex() for x in split(data, lens)) or 'EOF')
-    ctx.outcome('%s:%s' % (got[0], got[1] if got[0] == 'raise' else ''))
+    if array:
+        case['array'] = 1
+    plain = None
+    for via in VIAS + ((ARRAY,) if array else ()):
+        got, pos = decode_once(tname, data, counting, stream, lens, via)
+        ctx.outcome('%s:%s' % (got[0], got[1] if got[0] == 'raise' else ''))
+        call = via_text(tname, via, 'read')
+        if via == 'plain':
+            plain = (got, pos)
+            judge_decode(ctx, tname, data, exp, got, pos, key, call, at, case)
+            continue
+        ctx.cls('decode through %s' % via)
+        k = '%s via %s' % (key, via)
+        judge_decode(ctx, tname, data, exp, got, pos, k, call, at, case)
+        if (got, pos) != plain and k not in ctx.violations:
+            ctx.violation(k, '%s(%s)%s gave %r and consumed %d byte(s), '
+                          '%s.read on the same input gave %r and consumed '
+                          '%d: the entry points must agree'
+                          % (call, data.hex(), at, got, pos, tname,
+                             plain[0], plain[1]), case)
+
+
+def judge_decode(ctx, tname, data, exp, got, pos, key, call, via, case):
+    T = types()[tname]
     if pos > T.max_bytes + 1 or got[0] == 'horizon':
-        ctx.violation(key, '%s.read consumed %d bytes (> %d) from %s%s'
-                      % (tname, pos, T.max_bytes + 1, data.hex(), via), case)
+        ctx.violation(key, '%s consumed %d bytes (> %d) from %s%s'
+                      % (call, pos, T.max_bytes + 1, data.hex(), via), case)
         return
     if exp[0] == 'raise':
         if got[0] != 'raise':
-            ctx.violation(key, '%s.read(%s)%s returned %r, must raise'
-                          % (tname, data.hex(), via, got[1:]), case)
+            ctx.violation(key, '%s(%s)%s returned %r, must raise'
+                          % (call, data.hex(), via, got[1:]), case)
         return
     if got[0] == 'raise':
         if exp[0] == 'value':
-            ctx.violation(key, '%s.read(%s)%s raised %s, expected %d'
-                          % (tname, data.hex(), via, got[1], exp[1]), case)
+            ctx.violation(key, '%s(%s)%s raised %s, expected %d'
+                          % (call, data.hex(), via, got[1], exp[1]), case)
         return
     v = got[1]
     if isinstance(v, bool) or not isinstance(v, int) or v < 0 or v != exp[1]:
-        ctx.violation(key, '%s.read(%s)%s = %r, expected %d'
-                      % (tname, data.hex(), via, v, exp[1]), case)
+        ctx.violation(key, '%s(%s)%s = %r, expected %d'
+                      % (call, data.hex(), via, v, exp[1]), case)
     elif pos != exp[2]:
-        ctx.violation(key, '%s.read(%s)%s left the cursor at %d, expected %d'
-                      % (tname, data.hex(), via, pos, exp[2]), case)
+        ctx.violation(key, '%s(%s)%s left the cursor at %d, expected %d'
+                      % (call, data.hex(), via, pos, exp[2]), case)
 
 
 class Sink(object):
@@ -272,49 +405,76 @@ class Sink(object):
             raise Horizon()
 
 
-def check_encode(ctx, tname, n, traced=False):
-    T = types()[tname]
-    case = {'op': 'encode', 'type': tname, 'n': str(n)}
-    key = 'encode %s %d' % (tname, n)
+ARRAY_BELOW = 1 << 12       # encode: the array entry point for n below this
+ARRAY_LEN = 1               # decode: ... for all byte strings up to this length
+
+
+def encode_once(tname, n, traced, via):
     sink = Sink()
+    conn_context()          # (imports are not part of the traced call)
     try:
         if traced:
-            bounded(T.send, n, sink)
+            bounded(send_via, via, tname, n, sink)
         else:
-            T.send(n, sink)
-        got = ('bytes', b''.join(sink.chunks))
+            send_via(via, tname, n, sink)
+        return ('bytes', b''.join(sink.chunks))
     except Horizon:
-        got = ('horizon',)
+        return ('horizon',)
     except Exception as e:
-        got = ('raise', type(e).__name__)
-    ctx.outcome('enc-%s' % got[0])
-    if got[0] == 'horizon':
-        ctx.violation(key, '%s.send(%d) does not terminate (horizon of %d '
-                      'line events / 64 output bytes exceeded)'
-                      % (tname, n, HORIZON), case)
-        return
+        return ('raise', type(e).__name__)
+
+
+def check_encode(ctx, tname, n, traced=False, array=None):
+    """Through every entry point of VIAS; array (default: for the traced
+    cases and n < ARRAY_BELOW): also as the one element of an array."""
+    T = types()[tname]
+    case = {'op': 'encode', 'type': tname, 'n': str(n)}
+    if array is None:
+        array = traced or 0 <= n < ARRAY_BELOW
     limit = 1 << (32 if tname == 'VarInt' else 64)
-    if not 0 <= n < limit:
-        return      # outside the stated range only termination is required
-    want = ref.varnum(n)
-    if got != ('bytes', want):
-        ctx.violation(key, '%s.send(%d) -> %r, canonical form is %s'
-                      % (tname, n, got[1].hex() if got[0] == 'bytes'
-                         else got, want.hex()), case)
+    want = ref.varnum(n) if 0 <= n < limit else None
+    for via in VIAS + ((ARRAY,) if array else ()):
+        key = 'encode %s %d' % (tname, n)
+        call = via_text(tname, via, 'send')
+        lead = b''
+        if via != 'plain':
+            key += ' via %s' % via
+            ctx.cls('encode through %s' % via)
+        if via == ARRAY:
+            lead = b'\x01'
+        got = encode_once(tname, n, traced, via)
+        ctx.outcome('enc-%s' % got[0])
+        if got[0] == 'horizon':
+            ctx.violation(key, '%s(%d) does not terminate (horizon of %d '
+                          'line events / 64 output bytes exceeded)'
+                          % (call, n, HORIZON), case)
+            continue
+        if want is None:
+            continue    # outside the stated range only termination is required
+        if got != ('bytes', lead + want):
+            ctx.violation(key, '%s(%d) -> %r, canonical form is %s'
+                          % (call, n, got[1].hex() if got[0] == 'bytes'
+                             else got, (lead + want).hex()), case)
+            continue
+        try:
+            s = io.BytesIO(lead + want + b'\xaa')
+            back = (read_via(via, tname, s), s.tell() - len(lead))
+        except Exception as e:
+            back = e
+        if back != (n, len(want)):
+            ctx.violation(key, '%s(%s + aa) = %r, expected %r (value, bytes '
+                          'consumed)' % (via_text(tname, via, 'read'),
+                                         (lead + want).hex(), back,
+                                         (n, len(want))), case)
+    if want is None:
         return
-    try:
-        back = T.read(io.BytesIO(want + b'\xaa'))
-    except Exception as e:
-        back = e
-    if back != n:
-        ctx.violation(key, '%s.read(%s) = %r, expected %d'
-                      % (tname, want.hex(), back, n), case)
     try:
         size = T.size(n)
     except Exception as e:
         size = e
     if size != len(want):
-        ctx.violation(key, '%s.size(%d) = %r, encoded length is %d'
+        ctx.violation('encode %s %d' % (tname, n),
+                      '%s.size(%d) = %r, encoded length is %d'
                       % (tname, n, size, len(want)), case)
 
 
@@ -348,13 +508,13 @@ def w_strings(ctx, task):
     tname, length, first = task
     if length == 0:
         ctx.count()
-        check_decode(ctx, tname, b'')
+        check_decode(ctx, tname, b'', array=True)
         return
     rest = length - 1
     n = 0
     for tail in range(256 ** rest):
         data = bytes([first]) + tail.to_bytes(rest, 'big')
-        check_decode(ctx, tname, data)
+        check_decode(ctx, tname, data, array=length <= ARRAY_LEN)
         n += 1
     ctx.count(n)
     ctx.note_distinct(n)
@@ -444,6 +604,285 @@ def w_streams(ctx, task):
         check_decode(ctx, tname, data, stream=kind, lens=lens)
         ctx.cls('%s stream: %s' % (kind, label))
     ctx.cls('stream kind %s' % kind)
+
+
+# -- histories: failed and re-entrant sends --------------------------------------
+# An encoder must not carry anything from one call to the next: not when the
+# sink's send() raised (the peer closed the connection, a signal interrupted
+# the call, a wrapper object failed), and not when the sink's send() itself
+# encodes a number (a length-prefixing wrapper) while the outer call is still
+# in progress.  Every history runs in a fresh fork, so nothing it leaves
+# behind reaches another one and a replay meets the same start state.
+
+FAIL_KINDS = ('BrokenPipeError', 'InterruptedError', 'KeyError')
+H_OPS = [('VarInt', 0), ('VarInt', 1), ('VarInt', 127), ('VarInt', 128),
+         ('VarInt', 300), ('VarInt', 1 << 21), ('VarInt', (1 << 32) - 1),
+         ('VarLong', 0), ('VarLong', 300), ('VarLong', 1 << 35),
+         ('VarLong', (1 << 64) - 1)]
+FILL = 1 << 14          # sent successfully before the failing call (3 bytes)
+H_CHUNK = 13            # quick: histories run one after the other per fork
+
+
+def make_exc(kind):
+    return {'BrokenPipeError': BrokenPipeError(32, 'Broken pipe'),
+            'InterruptedError': InterruptedError(4, 'Interrupted system '
+                                                    'call'),
+            'KeyError': KeyError('sink')}[kind]
+
+
+class FailingSink(Sink):
+    """send() raises at its k-th call (only then), works otherwise."""
+
+    def __init__(self, k, kind):
+        Sink.__init__(self)
+        self.k, self.kind, self.calls, self.failed = k, kind, 0, None
+
+    def send(self, b):
+        self.calls += 1
+        if self.calls == self.k:
+            self.failed = bytes(b)
+            raise make_exc(self.kind)
+        Sink.send(self, b)
+
+
+READ_FAILS = ('ConnectionResetError', 'InterruptedError', 'KeyError',
+              'end of stream')
+
+
+class FailingStream(object):
+    """read() raises at its k-th call ('end of stream': returns nothing from
+    then on), hands out the data otherwise"""
+
+    def __init__(self, data, k, kind):
+        self.b, self.k, self.kind = io.BytesIO(data), k, kind
+        self.calls, self.failed = 0, False
+
+    def read(self, n=-1):
+        self.calls += 1
+        if self.calls > 64:
+            raise Horizon()
+        if self.calls >= self.k and self.kind == 'end of stream':
+            self.failed = True
+            return b''
+        if self.calls == self.k:
+            self.failed = True
+            raise ConnectionResetError(104, 'Connection reset by peer') \
+                if self.kind == 'ConnectionResetError' \
+                else make_exc(self.kind)
+        return self.b.read(n)
+
+
+class PrefixSink(object):
+    """A length-prefixing wrapper: every chunk handed to send() is written to
+    the inner sink as <length as VarInt/VarLong> <chunk>."""
+
+    def __init__(self, inner, tname):
+        self.inner, self.tname, self.chunks = inner, tname, []
+
+    def send(self, b):
+        self.chunks.append(bytes(b))
+        if len(self.chunks) > 64:
+            raise Horizon()
+        types()[self.tname].send(len(b), self.inner)
+        self.inner.send(b)
+
+
+def hsend(via, tname, n, sink):
+    conn_context()          # (imports are not part of the traced call)
+    try:
+        bounded(send_via, via, tname, n, sink)
+        return 'ok'
+    except Horizon:
+        return 'horizon'
+    except Exception as e:
+        return 'raise ' + type(e).__name__
+
+
+def histories(thorough):
+    out = []
+    for first in H_OPS:
+        for nxt in H_OPS:
+            for kind in FAIL_KINDS:
+                for k in ((1, 2, 3) if thorough else (1, 2)):
+                    for target in ('fresh', 'same'):
+                        out.append({'kind': 'fail', 'first': first,
+                                    'next': nxt, 'exc': kind, 'k': k,
+                                    'target': target})
+            for kind in READ_FAILS:
+                for k in ((1, 2, 3) if thorough else (1, 2)):
+                    out.append({'kind': 'readfail', 'first': first,
+                                'next': nxt, 'exc': kind, 'k': k})
+            for tp in ('VarInt', 'VarLong'):
+                for depth in (1, 2):
+                    out.append({'kind': 'reenter', 'first': first,
+                                'next': nxt, 'prefix': tp, 'depth': depth})
+    return out
+
+
+def h_case(h):
+    c = dict(h)
+    c['op'] = 'history'
+    c['first'] = [h['first'][0], str(h['first'][1])]
+    c['next'] = [h['next'][0], str(h['next'][1])]
+    return c
+
+
+def h_uncase(c):
+    h = dict(c)
+    h.pop('op', None)
+    h.pop('before', None)
+    h['first'] = (c['first'][0], int(c['first'][1]))
+    h['next'] = (c['next'][0], int(c['next'][1]))
+    return h
+
+
+def run_history(ctx, h, before=()):
+    """before: the histories already executed in this process (part of the
+    case: a replay runs them first)"""
+    t1, n1 = h['first']
+    t2, n2 = h['next']
+    case = h_case(h)
+    if before:
+        case['before'] = [h_case(x) for x in before]
+    ctx.count()
+    ctx.note_distinct(1)
+    if h['kind'] == 'fail':
+        k, kind = h['k'], h['exc']
+        pre = 'after %s.send(%d) into a sink whose send() raised %s at its ' \
+            'call %d' % (t1, n1, kind, k)
+        F = FailingSink(k, kind)
+        for i in range(k - 1):
+            r = hsend('plain', t1, FILL, F)
+            if F.failed is None and (
+                    r != 'ok' or b''.join(F.chunks) !=
+                    ref.varnum(FILL) * (i + 1)):
+                ctx.violation('%s: the sends before the failure' % pre,
+                              '%s.send(%d) number %d into the sink gave %s, '
+                              'sink holds %s' % (t1, FILL, i + 1, r,
+                                                 b''.join(F.chunks).hex()),
+                              case)
+        r = hsend('plain', t1, n1, F)
+        ctx.outcome('send into a failing sink: %s' % r)
+        if F.failed is not None and r == 'raise ' + kind:
+            ctx.cls('history: send failed with %s' % kind)
+        target = F if h['target'] == 'same' else Sink()
+        where = 'the same sink (working again)' if target is F \
+            else 'a fresh sink'
+    elif h['kind'] == 'readfail':
+        k, kind = h['k'], h['exc']
+        enc = ref.varnum(n1)
+        pre = 'after %s.read(%s) from a stream whose read() %s at its call ' \
+            '%d' % (t1, enc.hex(), 'returned nothing' if
+                    kind == 'end of stream' else 'raised ' + kind, k)
+        st = FailingStream(enc + SENTINEL, k, kind)
+        try:
+            r = 'value' if types()[t1].read(st) == n1 else 'other value'
+        except Horizon:
+            r = 'horizon'
+        except Exception as e:
+            r = 'raise ' + type(e).__name__
+        ctx.outcome('read from a failing stream: %s' % r)
+        if st.failed and r.startswith('raise'):
+            ctx.cls('history: read failed with %s' % kind)
+        if r == 'horizon':
+            ctx.violation('%s.read(%s) from a failing stream' % (t1,
+                                                                enc.hex()),
+                          '%s.read made more than 64 read() calls on a '
+                          'stream over %s whose read() %s at call %d'
+                          % (t1, enc.hex(), 'returned nothing' if
+                             kind == 'end of stream' else 'raised ' + kind,
+                             k), case)
+        target = Sink()
+        where = 'a fresh sink'
+    else:
+        tp, depth = h['prefix'], h['depth']
+        pre = 'after %s.send(%d) into a length-prefixing sink (%s lengths, ' \
+            'depth %d)' % (t1, n1, tp, depth)
+        chain = [Sink()]
+        for _ in range(depth):
+            chain.append(PrefixSink(chain[-1], tp))
+        r = hsend('plain', t1, n1, chain[-1])
+        ctx.cls('history: re-entrant send')
+        top = b''.join(chain[-1].chunks)
+        bad = None
+        if r != 'ok' or top != ref.varnum(n1):
+            bad = 'the call gave %s and handed %s to the sink, canonical ' \
+                'form is %s' % (r, top.hex(), ref.varnum(n1).hex())
+        else:
+            for lvl in range(depth, 0, -1):
+                w, below = chain[lvl], chain[lvl - 1]
+                want = b''.join(ref.varnum(len(c)) + c for c in w.chunks)
+                got = b''.join(below.chunks)
+                if got != want:
+                    bad = 'the wrapper at depth %d received the chunks %s ' \
+                        'and wrote <length><chunk> for each, the sink below ' \
+                        'it received %s instead of %s' % (
+                            depth - lvl + 1,
+                            [c.hex() for c in w.chunks], got.hex(),
+                            want.hex())
+                    break
+        if bad:
+            ctx.violation('%s.send(%d) into a length-prefixing sink (%s '
+                          'lengths, depth %d)' % (t1, n1, tp, depth),
+                          '%s.send(%d) into a sink whose send() writes the '
+                          'length of each chunk as a %s and then the chunk '
+                          '(nested %d deep): %s' % (t1, n1, tp, depth, bad),
+                          case)
+        target = Sink()
+        where = 'a fresh sink'
+    if h['kind'] == 'readfail':
+        h_read_back(ctx, pre, t2, n2, case)     # the next decode comes first
+    # the next number, and everything after it, must be canonical again
+    steps = [('plain', t2, n2, target)]
+    steps += [(via, t2, n2, Sink()) for via in VIAS[1:] + (ARRAY,)]
+    steps += [('plain', t1, n1, Sink())]
+    for i, (via, t, n, sink) in enumerate(steps):
+        before = b''.join(sink.chunks)
+        r = hsend(via, t, n, sink)
+        got = b''.join(sink.chunks)[len(before):]
+        want = (b'\x01' if via == ARRAY else b'') + ref.varnum(n)
+        ctx.outcome('send after a history: %s' % r)
+        if r != 'ok' or got != want:
+            ctx.violation('%s: %s(%d)%s' % (pre, via_text(t, via, 'send'), n,
+                                            '' if i == 0 else ' (call %d '
+                                            'after it)' % (i + 1)),
+                          '%s, call %d afterwards: %s(%d) into %s gave %s '
+                          'and wrote %s, canonical form is %s'
+                          % (pre, i + 1, via_text(t, via, 'send'), n,
+                             where if i == 0 else 'a fresh sink', r,
+                             got.hex(), want.hex()), case)
+    h_read_back(ctx, pre, t2, n2, case)
+
+
+def h_read_back(ctx, pre, t2, n2, case):
+    for via in VIAS:
+        try:
+            s = io.BytesIO(ref.varnum(n2) + b'\xaa')
+            back = (read_via(via, t2, s), s.tell())
+        except Exception as e:
+            back = e
+        if back != (n2, len(ref.varnum(n2))):
+            ctx.violation('%s: %s' % (pre, via_text(t2, via, 'read')),
+                          '%s: %s(%s + aa) = %r, expected %r'
+                          % (pre, via_text(t2, via, 'read'),
+                             ref.varnum(n2).hex(), back,
+                             (n2, len(ref.varnum(n2)))), case)
+
+
+def _history_child(proto, hs):
+    sub = Ctx(*proto)
+    for j, h in enumerate(hs):
+        run_history(sub, h, hs[:j])
+    return sub.export()
+
+
+def w_histories(ctx, task):
+    """task: histories executed one after the other in ONE fresh fork"""
+    proto = (ctx.pid, ctx.tier, ctx.seed, ctx.level)
+    types()                 # imports only: the fork inherits them
+    conn_context()
+    ctx.absorb(explore.in_child(_history_child, proto, task))
+    ctx.cls('history: fresh process')
 
 
 # -- concurrent encoders / decoders ---------------------------------------------
@@ -593,6 +1032,16 @@ REQUIRED_CLASSES = [
     'socket-buffered stream: truncated number on a segmented stream',
     'socket-unbuffered stream: segment boundary inside the number',
     'negative',
+    'decode through class-ctx', 'decode through instance-ctx',
+    'decode through array-ctx', 'encode through class-ctx',
+    'encode through instance-ctx', 'encode through array-ctx',
+    'history: send failed with BrokenPipeError',
+    'history: send failed with InterruptedError',
+    'history: send failed with KeyError', 'history: re-entrant send',
+    'history: read failed with ConnectionResetError',
+    'history: read failed with InterruptedError',
+    'history: read failed with KeyError',
+    'history: read failed with end of stream', 'history: fresh process',
 ]
 
 
@@ -606,6 +1055,36 @@ def run(ctx):
 
 
 def _run(ctx, ex):
+    # histories first: their forks start from a process that has not run
+    # any codec yet
+    hs = histories(ctx.thorough)
+    per = 1 if ctx.thorough else H_CHUNK
+    hctx = ctx.fork()
+    hctx.pmap(w_histories, [hs[i:i + per] for i in range(0, len(hs), per)])
+    _rest(ctx, ex, bool(hctx.violations))
+    # what the histories found is reported unless the plain cases already
+    # fail (then 'X is wrong after a history' says nothing new)
+    if ctx.violations and hctx.violations:
+        ctx.extra['history_violations_not_reported'] = len(hctx.violations)
+        hctx.violations = {}
+    ctx.absorb(hctx)
+    ctx.extra['histories'] = {
+        'histories per fresh process': per,
+        'failed send then next send': sum(h['kind'] == 'fail' for h in hs),
+        'failed read then next read and send': sum(h['kind'] == 'readfail'
+                                                   for h in hs),
+        're-entrant send then next send': sum(h['kind'] == 'reenter'
+                                              for h in hs),
+        'operations': len(H_OPS), 'exceptions': list(FAIL_KINDS)}
+    ctx.sample({'history': 'VarInt.send(300) into a sink that raises '
+                           'BrokenPipeError, then VarInt.send(0) into a '
+                           'fresh sink', 'expect': ref.varnum(0)})
+    for c in REQUIRED_CLASSES:
+        if not ctx.classes.get(c):
+            raise ToolError('vacuity guard: class %r was never exercised' % c)
+
+
+def _rest(ctx, ex, skip_races):
     maxlen = 3 if ctx.thorough else 2
     tasks = []
     for tname in ('VarInt', 'VarLong'):
@@ -626,7 +1105,7 @@ def _run(ctx, ex):
                 ctx.count()
                 if data:
                     ctx.note_distinct(1)
-                check_decode(ctx, tname, data, counting=True)
+                check_decode(ctx, tname, data, counting=True, array=True)
                 ctx.cls('shape len=%d' % len(data))
     ctx.sample({'decode': 'ff ff ff ff 0f + trailer', 'type': 'VarInt',
                 'expect': expect(bytes.fromhex('ffffffff0f00'), 5)})
@@ -665,11 +1144,8 @@ def _run(ctx, ex):
     ctx.sample({'encode': 300, 'canonical': ref.varnum(300)})
     ctx.extra['decode_max_string_length'] = maxlen
     ctx.extra['encode_exhaustive_below'] = top
-    if not ctx.violations:
+    if not ctx.violations and not skip_races:
         run_races(ctx, ex)
-    for c in REQUIRED_CLASSES:
-        if not ctx.classes.get(c):
-            raise ToolError('vacuity guard: class %r was never exercised' % c)
 
 
 def replay(ctx, case):
@@ -685,11 +1161,17 @@ def replay(ctx, case):
         for key, what in viol:
             ctx.violation('race %s' % key, what, case)
         return
-    if case['op'] == 'decode':
+    if case['op'] == 'history':
+        before = [h_uncase(c) for c in case.get('before', ())]
+        for j, h in enumerate(before):
+            run_history(ctx, h, before[:j])
+        run_history(ctx, h_uncase(case), before)
+    elif case['op'] == 'decode':
         if case.get('stream'):
             check_decode(ctx, case['type'], case['data'],
                          stream=case['stream'], lens=tuple(case['lens']))
         else:
-            check_decode(ctx, case['type'], case['data'], counting=True)
+            check_decode(ctx, case['type'], case['data'], counting=True,
+                         array=bool(case.get('array')))
     else:
         check_encode(ctx, case['type'], int(case['n']), traced=True)
